@@ -264,6 +264,9 @@ type c05World struct {
 	proved    map[[2]int]bool
 	accepted  map[string]bool
 	realStep  int64
+	cert      int  // the next request carries a verified keymaster client certificate of this user (0: none)
+	fault     bool // profile writes fail during the next request
+	chains    map[int][][]*x509.Certificate
 	dirty     bool // stored profiles may differ from the pristine ones
 	savedFor  int  // configuration the stored profiles were written for
 	cfgID     int
@@ -278,7 +281,7 @@ type c05World struct {
 const c05TokenLife = 1000000
 
 const (
-	c05PW, c05U2F, c05VIP, c05TOTP, c05BOOT, c05CLI, c05FIDO2 = 1, 3, 4, 6, 8, 10, 11
+	c05PW, c05U2F, c05VIP, c05TOTP, c05BOOT, c05X509, c05CLI, c05FIDO2 = 1, 3, 4, 6, 8, 9, 10, 11
 )
 
 var c05Factors = []int{1, 2, 3, 4, 5, 6, 7, 8, 9, 10, 11}
@@ -336,6 +339,10 @@ func (w *c05World) reset() {
 	w.chalBytes, w.chalOwner, w.chalAt, w.curChal = map[int][]byte{}, map[int]int{}, map[int]int64{}, map[int]int{}
 	w.otpVal, w.otpOwner, w.otpExp, w.curOtp = map[int]string{}, map[int]int{}, map[int]int64{}, map[int]int{}
 	w.proved, w.accepted = map[[2]int]bool{}, map[string]bool{}
+	w.cert, w.fault = 0, false
+	if w.chains == nil {
+		w.chains = map[int][][]*x509.Certificate{}
+	}
 	w.realStep = time.Now().Unix() / 30
 	w.ops, w.outs, w.human = nil, nil, nil
 	w.tick(3000) // the model's clock starts at 0; every history starts at step 100
@@ -421,14 +428,54 @@ func (w *c05World) syncRealStep() {
 func (w *c05World) modelStep() int64 { return w.nowM / 30 }
 
 // ---- requests
-func (w *c05World) attach(req *http.Request, cs []int) (sessionUser int, sessionLevel int) {
+// attach the cookies (and the client certificate, if one is pending); returns whom checkAuth will
+// authenticate the request as: with a mask that admits certificates the certificate's user at level
+// KeymasterX509, else the user of the LAST cookie attached
+func (w *c05World) attachMask(req *http.Request, cs []int, anyMask bool) (sessionUser int, sessionLevel int) {
 	for _, i := range cs {
 		if i >= 0 && i < len(w.cookies) {
 			req.AddCookie(&http.Cookie{Name: authCookieName, Value: w.cookies[i].val})
 			sessionUser, sessionLevel = w.cookies[i].sub, w.cookies[i].level // the last one attached names the session
 		}
 	}
+	if w.cert != 0 {
+		ch, ok := w.chains[w.cert]
+		if !ok {
+			ch = w.env.keymasterChain(w.names[w.cert], time.Now().Add(-time.Minute), &w.u2fKey[1].priv.PublicKey)
+			w.chains[w.cert] = ch
+		}
+		withTLS(req, ch, "")
+		w.proved[[2]int{w.cert, c05X509}] = true // presenting the certificate proves its key
+		if anyMask {
+			sessionUser, sessionLevel = w.cert, 1<<c05X509
+		}
+	}
 	return
+}
+
+func (w *c05World) attach(req *http.Request, cs []int) (int, int) { return w.attachMask(req, cs, true) }
+
+// the Coq / human text of the operation with its request modifiers
+func (w *c05World) wrap(coq, human string) (string, string) {
+	if w.cert == 0 && !w.fault {
+		return coq, human
+	}
+	c := "None"
+	if w.cert != 0 {
+		c = fmt.Sprintf("(Some %d%%N)", w.cert)
+		human = "cert(" + w.names[w.cert] + ")+" + human
+	}
+	if w.fault {
+		human = "write-fault+" + human
+	}
+	return fmt.Sprintf("Req %s %s (%s)", c, coqBool(w.fault), coq), human
+}
+
+// run one operation as a request with a client certificate and/or failing profile writes
+func (w *c05World) with(cert int, fault bool, f func()) {
+	w.cert, w.fault = cert, fault
+	f()
+	w.cert, w.fault = 0, false
 }
 
 func c05CoqList(cs []int) string {
@@ -470,6 +517,13 @@ func (w *c05World) emitted(rr *httptest.ResponseRecorder) []c05Cookie {
 
 // record the step; evaluate the oracles on what was emitted
 func (w *c05World) record(kind, coqOp, human string, sessionUser int, ok bool, em []c05Cookie) {
+	coqOp, human = w.wrap(coqOp, human)
+	if w.cert != 0 {
+		w.res.bump("request:with-certificate")
+	}
+	if w.fault {
+		w.res.bump("request:write-fault")
+	}
 	w.ops = append(w.ops, coqOp)
 	w.human = append(w.human, human)
 	out := "None"
@@ -516,6 +570,18 @@ func (w *c05World) acceptOnce(kind, value string, expired bool, em []c05Cookie) 
 }
 
 func (w *c05World) serve(req *http.Request) *httptest.ResponseRecorder {
+	if w.fault {
+		// the primary database stays readable but refuses profile writes for the time of this request
+		if _, err := w.env.state.db.Exec(`CREATE TRIGGER IF NOT EXISTS verif_write_fault BEFORE INSERT ON user_profile BEGIN SELECT RAISE(FAIL, 'verif: write fault'); END`); err != nil {
+			w.t.Fatalf("fault trigger: %v", err)
+		}
+		defer func() {
+			time.Sleep(5 * time.Millisecond)
+			if _, err := w.env.state.db.Exec(`DROP TRIGGER IF EXISTS verif_write_fault`); err != nil {
+				w.t.Fatalf("fault trigger: %v", err)
+			}
+		}()
+	}
 	rr, _ := w.env.serve(req)
 	return rr
 }
@@ -778,9 +844,10 @@ func (w *c05World) issueOtp(target int, dur int64) {
 		w.otpVal[id], w.otpOwner[id], w.otpExp[id] = d.BootstrapOTPValue, target, w.nowM+eff
 		w.curOtp[target] = id
 	}
-	w.ops = append(w.ops, fmt.Sprintf("IssueOtp %d %d", target, dur))
+	coq, human := w.wrap(fmt.Sprintf("IssueOtp %d %d", target, dur), fmt.Sprintf("IssueOtp(%s,%ds)", w.names[target], dur))
+	w.ops = append(w.ops, coq)
 	w.outs = append(w.outs, fmt.Sprintf("(%s, None)", coqBool(ok)))
-	w.human = append(w.human, fmt.Sprintf("IssueOtp(%s,%ds)", w.names[target], dur))
+	w.human = append(w.human, human)
 	w.res.bump("op:IssueOtp")
 }
 
@@ -814,7 +881,7 @@ func (w *c05World) showTok(cs []int, life int64) {
 	old := st.Config.Base.WebauthTokenForCliLifetime
 	st.Config.Base.WebauthTokenForCliLifetime = time.Duration(life) * time.Second
 	req := verifNewRequest("GET", paths.ShowAuthToken, nil)
-	su, _ := w.attach(req, cs)
+	su, _ := w.attachMask(req, cs, false)
 	rr := w.serve(req)
 	st.Config.Base.WebauthTokenForCliLifetime = old
 	ok := rr.Code == 200
@@ -838,7 +905,7 @@ func (w *c05World) sendDoc(cs []int, tk int) {
 	f.Set("port", "12345")
 	f.Set("token", val)
 	req := verifNewRequest("GET", paths.SendAuthDocument, f)
-	su, sl := w.attach(req, cs)
+	su, sl := w.attachMask(req, cs, false)
 	if owner != 0 && owner == su && sl&w.webui != 0 && w.nowM < w.tokens[tk].expM {
 		w.proved[[2]int{owner, c05CLI}] = true
 	}
@@ -898,8 +965,19 @@ func (w *c05World) alphabet() []func() {
 		func() { w.issueOtp(2, 45) },
 		func() { w.bootstrap([]int{1}, otp(2)) },
 		func() { w.bootstrap([]int{0, 1}, otp(2)) },
+		// requests authenticated by a client certificate while another user's cookie is attached
+		func() { w.with(2, false, func() { w.bootstrap([]int{0}, otp(2)) }) },
+		func() { w.with(1, false, func() { w.totp([]int{1}, 1, w.modelStep()) }) },
+		// the profile cannot be written while the OTP is presented
+		func() { w.with(0, true, func() { w.bootstrap([]int{1}, otp(2)) }) },
+		func() { w.with(1, false, func() { w.poll([]int{1}, 0) }) },
+		func() { w.with(1, false, func() { w.vipOtp([]int{1}, 1, true) }) },
 	}
 }
+
+// the letters of the depth-3 enumeration of the quick tier (the others appear at depth 2, in the targeted
+// scenarios and in the random histories)
+var c05Core = []int{0, 1, 2, 3, 4, 5, 7, 8, 9, 11, 12, 14, 16}
 
 func (w *c05World) prefix() {
 	w.reset()
@@ -908,6 +986,17 @@ func (w *c05World) prefix() {
 }
 
 func (w *c05World) randomOp(rng *mrand.Rand) {
+	cert, fault := 0, false
+	if rng.Intn(5) == 0 {
+		cert = 1 + rng.Intn(2)
+	}
+	if rng.Intn(12) == 0 {
+		fault = true
+	}
+	w.with(cert, fault, func() { w.randomOpPlain(rng) })
+}
+
+func (w *c05World) randomOpPlain(rng *mrand.Rand) {
 	n := len(w.cookies)
 	pickCs := func() []int {
 		switch rng.Intn(6) {
@@ -1056,6 +1145,43 @@ func (w *c05World) targeted() []func() {
 			w.poll([]int{1}, 0)
 			w.poll([]int{0}, 0)
 			w.poll([]int{0}, 0)
+			w.poll([]int{1}, 0) // again, now that the owner has polled successfully
+			w.poll([]int{0, 1}, 0)
+		},
+		func() { // authenticated by client certificate: whose cookie is upgraded, and to which level
+			w.issueOtp(2, 3600)
+			w.with(2, false, func() { w.bootstrap([]int{0}, w.curOtp[2]) }) // bob's certificate and OTP, alice's cookie
+			w.bootstrap([]int{1}, w.curOtp[2])
+			w.issueOtp(2, 3600)
+			w.with(2, false, func() { w.bootstrap([]int{1}, w.curOtp[2]) })
+			w.with(1, false, func() { w.totp([]int{1}, 1, w.modelStep()) })
+			w.with(1, false, func() { w.totp([]int{0}, 1, w.modelStep()+1) })
+			w.with(1, false, func() { w.vipOtp([]int{1}, 1, true) })
+			w.with(1, false, func() { w.vipOtp([]int{0}, 1, true) })
+			w.with(1, false, func() { w.pushStart([]int{1}, 0) })
+			w.approve(w.vcTx[0])
+			w.with(1, false, func() { w.poll([]int{1}, 0) })
+			w.poll([]int{1}, 0)
+			w.with(1, false, func() { w.poll([]int{0}, 0) })
+			w.with(1, false, func() { w.u2fBegin([]int{1}) })
+			w.with(1, false, func() { w.finish("U2fFinish", []int{1}, 1, false, w.curChal[1]) })
+			w.with(1, false, func() { w.u2fBegin(nil) })
+			w.with(1, false, func() { w.finish("U2fFinish", nil, 1, false, w.curChal[1]) })
+			w.with(1, false, func() { w.waBegin([]int{0}) })
+			w.with(1, false, func() { w.finish("WaFinish", []int{0}, 1, false, w.curChal[1]) })
+			w.with(1, false, func() { w.showTok([]int{1}, c05TokenLife) })
+		},
+		func() { // profile writes fail: nothing is accepted, the value stays usable exactly once
+			w.with(0, true, func() { w.issueOtp(2, 3600) })
+			w.issueOtp(2, 3600)
+			w.with(0, true, func() { w.bootstrap([]int{1}, w.curOtp[2]) })
+			w.bootstrap([]int{1}, w.curOtp[2])
+			w.bootstrap([]int{1}, w.curOtp[2])
+			w.with(0, true, func() { w.totp([]int{0}, 1, w.modelStep()) })
+			w.totp([]int{0}, 1, w.modelStep())
+			w.totp([]int{0}, 1, w.modelStep())
+			w.u2fBegin([]int{0})
+			w.with(0, true, func() { w.finish("U2fFinish", []int{0}, 1, false, w.curChal[1]) })
 		},
 		func() { // TOTP: accepted once, not again in the same or the next step; older code after a newer one
 			w.totp([]int{0}, 1, w.modelStep())
@@ -1129,7 +1255,7 @@ func (w *c05World) targeted() []func() {
 
 func TestVerif_C05(t *testing.T) {
 	verifWriteConsts(t)
-	res := newVerifResult("exhaustive depth-3 histories over a 14-letter alphabet (thorough: also depth 4 over its first eight letters) after the prefix [login alice; login bob] + seeded random histories of length <= 12 (thorough <= 20) over all 16 operations, two enrolment configurations, cookies attached singly and in pairs in both orders + targeted scenarios; non-trivial = the history contains at least one level upgrade; distinct by (operations, outputs)")
+	res := newVerifResult("exhaustive depth-3 histories over 13 core letters and depth-2 over all 19 letters of the alphabet (thorough: depth 3 over all 19, depth 4 over the first eight); requests optionally authenticated by a verified client certificate and/or with failing profile writes after the prefix [login alice; login bob] + seeded random histories of length <= 12 (thorough <= 20) over all 16 operations, two enrolment configurations, cookies attached singly and in pairs in both orders + targeted scenarios; non-trivial = the history contains at least one level upgrade; distinct by (operations, outputs)")
 	vip := &c05Vip{}
 	vip.reset()
 	// lib/vip builds a new http.Transport for every call and never closes its idle connection: without
@@ -1224,7 +1350,8 @@ func TestVerif_C05(t *testing.T) {
 	}
 	// exhaustive small scope: depth 3 over the whole alphabet; thorough adds depth 4 over its first eight letters
 	w.devs, w.cfgID = configs[0], 0
-	enumerate := func(nAlpha, depth int, tag string) {
+	enumerate := func(letters []int, depth int, tag string) {
+		nAlpha := len(letters)
 		total := 1
 		for i := 0; i < depth; i++ {
 			total *= nAlpha
@@ -1233,16 +1360,23 @@ func TestVerif_C05(t *testing.T) {
 			w.prefix()
 			x := h
 			for i := 0; i < depth; i++ {
-				w.alphabet()[x%nAlpha]()
+				w.alphabet()[letters[x%nAlpha]]()
 				x /= nAlpha
 			}
 			finishHistory(0, tag)
 			res.bump("history:" + tag)
 		}
 	}
-	enumerate(len(w.alphabet()), 3, "exhaustive")
+	allLetters := make([]int, len(w.alphabet()))
+	for i := range allLetters {
+		allLetters[i] = i
+	}
 	if thorough {
-		enumerate(8, 4, "exhaustive-depth4")
+		enumerate(allLetters, 3, "exhaustive")
+		enumerate(allLetters[:8], 4, "exhaustive-depth4")
+	} else {
+		enumerate(c05Core, 3, "exhaustive")
+		enumerate(allLetters, 2, "exhaustive-depth2")
 	}
 	res.Exhaustive = true
 	// random
